@@ -65,8 +65,11 @@ Fixpoint rfirst_bad (fx : fixes) (sc su : rstate) (i : N) (l : list (rop * list 
 (* every history starts on an empty registry: the fixture's registrations are its first operations *)
 Definition rinit : rstate := (empty_tables, no_caches).
 Definition chk_reg_history (l : list (rop * list N * list N)) : bool := rfirst_bad as_coded rinit rinit 1 l =? 0.
-(* against the code BEFORE the repairs d43ed5b / 65fc362 (used only to describe a regression) *)
+(* against the code BEFORE the repairs d43ed5b / 65fc362, and against removal in the reversed order (used only to
+   describe a regression) *)
 Definition chk_reg_history_no_chain_fix (l : list (rop * list N * list N)) : bool :=
-  rfirst_bad (mkFixes false true) rinit rinit 1 l =? 0.
+  rfirst_bad (mkFixes false true true) rinit rinit 1 l =? 0.
 Definition chk_reg_history_no_rm_fix (l : list (rop * list N * list N)) : bool :=
-  rfirst_bad (mkFixes true false) rinit rinit 1 l =? 0.
+  rfirst_bad (mkFixes true false true) rinit rinit 1 l =? 0.
+Definition chk_reg_history_rm_reversed (l : list (rop * list N * list N)) : bool :=
+  rfirst_bad (mkFixes true true false) rinit rinit 1 l =? 0.
